@@ -222,7 +222,10 @@ package iscp
 //@   loop 1 invariant imp(old(c.state.current) == connStatusClosed, c.state.current == connStatusClosed)
 
 //@ func (*Conn).reconnect
-//@   props C10
+//@   props C10 C05
+// C05: a reconnect replaces the wire connection and nothing else of the connection's identity
+// state: the stream-alias generator (and with it every alias already handed out) survives
+//@   ensures[C05] c.downstreamIDGenerator == old(c.downstreamIDGenerator) && imp(c.downstreamIDGenerator != nil, c.downstreamIDGenerator.currentValue == old(c.downstreamIDGenerator.currentValue))
 //@   nopanic
 //@   requires[C10] c.state != nil && c.state.cond != nil && c.state.RWMutex != nil && c.wireConn != nil && c.logger != nil && c.Config.TokenSource != nil
 //@   assert call CompareAndSwapNot: arg1 == connStatusClosed
